@@ -9,7 +9,8 @@ RULE = ("seeded scenarios (all objective families, N=1..5, boxes of every kind, 
         "(refineSolution=False) the public iteration over Solver.searchData is audited: order, end points, links, count, completeness "
         "against the objective's call log, interval lengths, stored point = image of a fresh Evolvent, stored values. An invariant wrapper "
         "re-checks the local links after every InsertDataItem call. A further group injects one transient objective failure (at evaluation 1, 2, 3 or later) and goes on with the same Solver: the record must list exactly the completed trials at every later step. Non-trivial: >= 4 trials; distinct = (family, N, m, box kind, "
-        "trial count, number of moments).")
+        "trial count, number of moments)."
+       ' In 30% of the stepped / batched scenarios a do-nothing Listener is attached midway.')
 ASSUMPTIONS = ["evaluated at quiescent points of the global phase; after Solve only when refineSolution=False (refinement deliberately rewrites the optimum in place)",
                "interval lengths compared within 4 ulp of libm pow", "stored point compared bitwise with a fresh Evolvent of the same bounds and density"]
 SIZES = {"quick": 320, "thorough": 18000}
